@@ -1,14 +1,31 @@
 """C08: a reset restores the world."""
 import check as CK
 from props import worldcommon as WC
-from props.c02 import ASSUME, replay
+from props.c02 import ASSUME
+from props.c02 import replay as _walk_replay
 
-TRANSLATORS = []
+TRANSLATORS = ["enums", "defender", "dispatch"]
 COQ_FILES = ["Props/C08.v"]
+
+
+def replay(ctx, payload):
+    if payload.get("kind") == "coordinator_session":
+        from props import coordcommon as CC
+        return CC.replay_session(ctx, "C08", payload)
+    return _walk_replay(ctx, payload)
 
 
 def correspondence(ctx):
     th = ctx.tier == "thorough"
+    # the reset as the GAME performs it (coordinator reset task, after any interleaving of actions, departures and joins):
+    # multi-agent sessions on the real coordinator; a monitor compares the world tables with the pristine ones whenever the
+    # reset task has reset the game (tagged C08 in coordcommon); the sessions are also followed by the coordinator model
+    from props import coordcommon as CC
+    CC.run_sessions(ctx, "C08", 60 if th else 24,
+                    lambda r: dict(n_events=r.choice([50, 80]), burst=0.15, fault=0.06, bad=0.02, resets=0.3),
+                    lambda r: dict(required=r.choice([1, 2, 2, 3]), max_steps=r.choice([2, 3, 6])))
+    sess_cov = {k: ctx.coverage.get(k) for k in ("sessions", "labels_followed", "response_and_barrier_statistics")}
+    ctx.coverage = {"coordinator_sessions": sess_cov}
     WC.world_suite(ctx, "C08", tags={"reset", "init", "load"}, walks_per_spec=4 if th else 1, n_generated=24 if th else 6,
                    n_steps=160 if th else 80, perturb=0.0, resets=20)
     ctx.assumptions += ASSUME + ["static addresses (dynamic re-labelling is C13)"]
